@@ -107,6 +107,59 @@ impl ValidationContext {
         Ok(())
     }
 
+    // -----------------------------------------------------------------------
+    // Length of a weave
+    // -----------------------------------------------------------------------
+
+    /// What follows a group of choices is compiled into a container inside the
+    /// container of what came before it, so a weave that goes on for very long
+    /// nests as deeply as it is long: beyond what the runtime loads, and
+    /// eventually beyond the stack of the emitter.
+    fn validate_weave_length(&self, nodes: &[Node]) -> Result<(), CompilerError> {
+        let mut choice_groups = 0;
+        let mut in_group = false;
+        for node in nodes {
+            let is_choice = matches!(node, Node::Choice(_));
+            if in_group && !is_choice {
+                choice_groups += 1;
+            }
+            in_group = is_choice;
+
+            match node {
+                Node::Conditional {
+                    when_true,
+                    when_false,
+                    ..
+                } => {
+                    self.validate_weave_length(when_true)?;
+                    if let Some(wf) = when_false {
+                        self.validate_weave_length(wf)?;
+                    }
+                }
+                Node::SwitchConditional { branches, .. } => {
+                    for (_, body) in branches {
+                        self.validate_weave_length(body)?;
+                    }
+                }
+                Node::Choice(c) => self.validate_weave_length(&c.body)?,
+                Node::Sequence(seq) => {
+                    for branch in &seq.branches {
+                        self.validate_weave_length(branch)?;
+                    }
+                }
+                _ => {}
+            }
+        }
+
+        if choice_groups > MAX_CHOICE_GROUPS_IN_A_WEAVE {
+            return Err(CompilerError::invalid_source(format!(
+                "a weave with more than {MAX_CHOICE_GROUPS_IN_A_WEAVE} groups of choices in a row \
+                 nests too deeply to be loaded: split it into knots or stitches"
+            )));
+        }
+        Ok(())
+    }
+
     fn check_no_direct_choice_in_branch(&self, nodes: &[Node]) -> Result<(), CompilerError> {
         for node in nodes {
             if let Node::Choice(c) = node {
